@@ -68,7 +68,7 @@ int snoopy_util_utmp_findUtmpEntryByLine (char const * const ttyLine, struct utm
     int           retVal = SNOOPY_FALSE;
 
     // Do the search with a private descriptor (same matching rule as getutline(): a login or user process on that line)
-    utmpFd = open(snoopy_util_utmp_filePath, O_RDONLY | O_CLOEXEC | O_NOCTTY);
+    utmpFd = open(snoopy_util_utmp_filePath, O_RDONLY | O_CLOEXEC | O_NOCTTY | O_NONBLOCK);   // Never wait in open(): not for a lease to be given up, not for the writer of a FIFO
     if (-1 == utmpFd) {
         return SNOOPY_FALSE;
     }
